@@ -171,18 +171,26 @@ func ZZ_C01_legacy() {
 // ZZ_C01_pubkey: raw public keys in the three serialisations.
 func ZZ_C01_pubkey() {
 	net := zzNet()
-	format := vCase("format", 0, 2)
+	if vParam("allnets", 0) == 0 && net != &chaincfg.MainNetParams {
+		return
+	}
+	format := vCase("format", vParam("minformat", 0), vParam("maxformat", 2))
+	// The coordinates are symbolic in their last `symbytes` bytes only (the rest is zero): every
+	// symbolic hex digit costs the decoder's CashAddr attempts two more paths.
+	nsym := vParam("symbytes", 2)
+	coord := func(name string) []byte {
+		c := make([]byte, 32)
+		copy(c[32-nsym:], vBytes(name, nsym))
+		return c
+	}
 	var ser []byte
 	switch format {
 	case 0:
-		ser = vBytes("pk", 33)
-		vAssume(ser[0] == 2 || ser[0] == 3)
+		ser = append([]byte{2 | vSym("ybit", 1)}, coord("x")...)
 	case 1:
-		ser = vBytes("pk", 65)
-		vAssume(ser[0] == 4)
+		ser = append(append([]byte{4}, coord("x")...), coord("y")...)
 	case 2:
-		ser = vBytes("pk", 65)
-		vAssume(ser[0] == 6 || ser[0] == 7)
+		ser = append(append([]byte{6 | vSym("ybit", 1)}, coord("x")...), coord("y")...)
 	}
 	_, perr := zzStubParsePubKey(ser, zzStubS256())
 	vAssume(perr == nil)
@@ -207,11 +215,6 @@ func ZZ_C01_pubkey() {
 		vAssert("pubkey:payload", vEqBytes(pk.ScriptAddress(), ser))
 		vAssert("pubkey:re-encode", pk.String() == s)
 		vAssert("pubkey:decoded-is-for-net", pk.IsForNet(net))
-		vAssert("pubkey:p2pkh-string", pk.EncodeAddress() == a.EncodeAddress())
 	}
-	// the pay-to-pubkey-hash rendering is Base58Check(version, Hash160(serialisation))
-	body := append([]byte{net.LegacyPubKeyHashAddrID}, Hash160(ser)...)
-	body = append(body, zzDsha(body)[:4]...)
-	vAssert("pubkey:encode-address", a.EncodeAddress() == zzB58(body))
 	vReach("end")
 }
